@@ -42,6 +42,10 @@ type C09Case struct {
 	// directory or file is renamed away.  Nothing can be served any more, but
 	// every file request is still reported.
 	GoneAt int `json:"gone_at,omitempty"`
+	// RewriteAt: before request number RewriteAt (1-based; 0 = never) the
+	// single served file is given new contents (single-file mode only); the
+	// answers from then on are the file as it is now.
+	RewriteAt int `json:"rewrite_at,omitempty"`
 }
 
 // strictShell matches request targets that the mux certainly routes to a shell
@@ -217,6 +221,20 @@ func runC09(t testing.TB, c C09Case) (key, what string, st c09Stats) {
 	gone := false
 	for i, rq := range c.Reqs {
 		desc := fmt.Sprintf("request %d %q", i, clip(string(rq.raw()), 200))
+		if c.RewriteAt == i+1 && c.Mode == "file" && !gone && c.GoneAt != i+1 {
+			single = []byte(fmt.Sprintf("REWRITTEN-BEFORE-REQUEST-%d-%s-second-longer-version-of-the-single-file\n", i, fileTok))
+			tmp := served + ".new"
+			if err := os.WriteFile(tmp, single, 0o644); err != nil {
+				panic(err)
+			}
+			when := time.Now().Add(time.Duration(i+1) * time.Hour)
+			os.Chtimes(tmp, when, when)
+			if err := os.Rename(tmp, served); err != nil {
+				panic(err)
+			}
+			desc += " (after the single served file was replaced by a new version)"
+			st.classes["request-after-single-file-rewritten"]++
+		}
 		if c.GoneAt == i+1 && served != "" {
 			if err := os.Rename(served, served+".gone"); err != nil {
 				panic(err)
@@ -516,6 +534,9 @@ func genC09() *rapid.Generator[C09Case] {
 				r.Extra = "If-Modified-Since: " + rapid.SampledFrom([]string{"Mon, 02 Jan 2040 15:04:05 GMT", "Mon, 02 Jan 2006 15:04:05 GMT"}).Draw(t, "ims") + "\r\n"
 			}
 			c.Reqs = append(c.Reqs, r)
+		}
+		if c.Mode == "file" && rapid.IntRange(0, 2).Draw(t, "rewrite") == 0 {
+			c.RewriteAt = rapid.IntRange(1, len(c.Reqs)).Draw(t, "rewriteat")
 		}
 		if goneDraw == 0 && c.Mode != "unset" {
 			c.GoneAt = rapid.IntRange(1, len(c.Reqs)).Draw(t, "goneat")
